@@ -271,6 +271,17 @@ fn replay(run: &Run, v: &Value) -> i32 {
                     sink.violation("replay".into(), w, case.clone());
                 }
             }
+            Some("cell-bytes") => {
+                let si = st(case["state"].as_str().unwrap());
+                let kn = case["msg"].as_str().unwrap();
+                let dir = case["to_server"].as_bool().unwrap();
+                let b = unhex(case["input"].as_str().unwrap());
+                if let Ok((_, m)) = tls_parser::parse_tls_message_handshake(&b) {
+                    if let Err(w) = check_cell(states[si], kind(kn), None, &m, dir) {
+                        sink.violation("replay".into(), w, case.clone());
+                    }
+                }
+            }
             Some("alert") => {
                 let si = st(case["state"].as_str().unwrap());
                 let sev = case["severity"].as_u64().unwrap() as u8;
@@ -444,6 +455,40 @@ fn main() {
         });
         sink.merge(sf);
     }
+    // ... nor on several fields at once: the hello cross product (version x magic random x session id x cipher kind x
+    // compression id x extension block) parsed into real messages, each through every (state, direction) cell
+    {
+        let states = all_states();
+        let sg = par_run(run.threads, 64, |c, sink| {
+            for server in [true, false] {
+                for w in vcommon::catalogue::hello_grid(server, false, false, c, 64) {
+                    let Ok((_, m)) = tls_parser::parse_tls_message_handshake(&w.buf) else { continue };
+                    let k = match &m {
+                        TlsMessage::Handshake(TlsMessageHandshake::ClientHello(ch)) => if ch.session_id.is_some() { "CH1" } else { "CH0" },
+                        TlsMessage::Handshake(TlsMessageHandshake::ServerHello(_)) => "SH",
+                        TlsMessage::Handshake(TlsMessageHandshake::ServerHelloV13Draft18(_)) => "SH13",
+                        TlsMessage::Handshake(TlsMessageHandshake::HelloRetryRequest(_)) => "HRR",
+                        _ => continue,
+                    };
+                    let k = kind(k);
+                    for (si, s) in states.iter().enumerate() {
+                        for dir in [true, false] {
+                            sink.evals += 1;
+                            if let Err(what) = check_cell(*s, k, None, &m, dir) {
+                                sink.violation(
+                                    format!("cell {} {} {} grid", STATES[si], KINDS[k], dirn(dir)),
+                                    format!("{} [hello {}]", what, hexshort(&w.buf)),
+                                    json!({"kind":"cell-bytes","state":STATES[si],"msg":KINDS[k],"to_server":dir,"input":hexs(&w.buf)}),
+                                );
+                            }
+                        }
+                    }
+                    sink.bump("hello-grid messages", 1);
+                }
+            }
+        });
+        sink.merge(sg);
+    }
     let cells = sink.evals;
     let b = bfs(&mut sink);
     let (all_init_states, all_init_transitions) = bfs_all_initial(&mut sink);
@@ -494,7 +539,7 @@ fn main() {
     );
     cov.insert("exhaustive".into(), json!(true));
     cov.insert("rule".into(), json!(
-        "E3: every (state, direction, kind, payload variant) cell incl. all 256x256 alerts, compared with the reference table, plus every cell with every value of every handshake-level enumerated field (all 65536 cipher ids, versions, ...) and with every message of a parsed payload corpus (handshake catalogue, magic randoms, hellos whose extension block is each known extension alone and in pairs); non-trivial = from-state is not one of the three constant rows (Invalid, SessionEncrypted, Finished). E1: BFS to fixpoint of (implementation state, table state, flow-NFA subset) from None over 23 kinds x 2 directions; every transition calls the real tls_state_transition"));
+        "E3: every (state, direction, kind, payload variant) cell incl. all 256x256 alerts, compared with the reference table, plus every cell with every hello of the field cross product (version x magic random x session id x 60 cipher kinds x 5 compression ids x 6 extension blocks), with every value of every handshake-level enumerated field (all 65536 cipher ids, versions, ...) and with every message of a parsed payload corpus (handshake catalogue, magic randoms, hellos whose extension block is each known extension alone and in pairs); non-trivial = from-state is not one of the three constant rows (Invalid, SessionEncrypted, Finished). E1: BFS to fixpoint of (implementation state, table state, flow-NFA subset) from None over 23 kinds x 2 directions; every transition calls the real tls_state_transition"));
     let mut samples = b.samples.clone();
     samples.extend(sink.samples.iter().cloned());
     cov.insert("samples".into(), json!(samples));
